@@ -63,7 +63,16 @@ def plans(ld):
         'subclass': (E1, lambda j: Sub1),
         'superclass-listed': (Exception, lambda j: (E1, E2, KeyError)[j % 3]),
         'filterexception-listed-explicitly': ((FE, E1), lambda j: (FE, E1)[j % 2]),
+        # selections that select nothing / something else: every raised
+        # exception is "of another type" and must propagate
+        'empty-tuple-selects-nothing': ((), lambda j: (FE, E1)[j % 2]),
+        'other-type-listed': (E2, lambda j: (FE, E1)[j % 2]),
+        'subclass-listed-superclass-raised': (Sub1, lambda j: E1),
     }
+
+
+UNSELECTED_PLANS = ('empty-tuple-selects-nothing', 'other-type-listed',
+                    'subclass-listed-superclass-raised')
 
 
 SITES = ('map', 'map-map', 'under-slice', 'concat-part', 'in-batch', 'after-items',
@@ -158,6 +167,9 @@ def check(ld, n, failing, plan, site, with_key, foreign_at, res, foreign_type=Fo
     if model is None or (with_key and site == 'in-batch'):
         return
     bad = set(failing)
+    unselected = plan in UNSELECTED_PLANS
+    if unselected and foreign_at is not None:
+        return
     nontrivial = bool(bad) and len(bad) < n
     res.case((n, tuple(sorted(failing)), plan, site, with_key, foreign_at,
               foreign_type.__name__, warn), nontrivial)
@@ -180,8 +192,9 @@ def check(ld, n, failing, plan, site, with_key, foreign_at, res, foreign_type=Fo
         # the members of one example are evaluated in order; the first one
         # that raises decides what happens to the example
         first = next((i for i in ids if i == foreign_at or i in bad), None)
-        if first is not None and first == foreign_at:
+        if first is not None and (first == foreign_at or unselected):
             want_err = True
+            want_exc_pos = first
             break
         if first is not None:
             continue
@@ -191,7 +204,13 @@ def check(ld, n, failing, plan, site, with_key, foreign_at, res, foreign_type=Fo
         res.violation('catch-output-differs', case, {'got': got, 'want': want,
                                                      'raised': exc_sig(err) if err else None}, sig=sig)
         return
-    if want_err:
+    if want_err and unselected:
+        res.count('foreign_propagations_checked')
+        if err is None:
+            res.violation('unlisted-exception-swallowed', case, {'got': got}, sig=sig)
+        elif err.args != (want_exc_pos,) or not any(err is r for r in raiser.raised):
+            res.violation('unlisted-exception-changed', case, exc_sig(err), sig=sig)
+    elif want_err:
         res.count('foreign_propagations_checked')
         if err is None:
             res.violation('unlisted-exception-swallowed', case, {'got': got}, sig=sig)
@@ -202,7 +221,7 @@ def check(ld, n, failing, plan, site, with_key, foreign_at, res, foreign_type=Fo
     elif err is not None:
         res.violation('listed-exception-propagated', case, exc_sig(err), sig=sig)
     # second iteration is the same
-    if foreign_at is None:
+    if foreign_at is None and not (unselected and bad):
         raiser.raised.clear()
         again, err2 = consume(iter(c.items()) if with_key else iter(c))
         if again != want or err2 is not None:
@@ -210,16 +229,19 @@ def check(ld, n, failing, plan, site, with_key, foreign_at, res, foreign_type=Fo
                           {'again': again, 'want': want}, sig=sig)
 
 
-def check_equivalence(ld, n, failing, res):
-    """lazy filter == eager filter == FilterException under catch."""
-    case = {'n': n, 'failing': sorted(failing), 'check': 'three-formulations'}
+def check_equivalence(ld, n, failing, res, style='bool'):
+    """lazy filter == eager filter == FilterException under catch; the
+    predicate may return any object with the right truth value."""
+    from ..terms import truthy
+    case = {'n': n, 'failing': sorted(failing), 'check': 'three-formulations',
+            'predicate_returns': style}
     bad = set(failing)
-    res.case(('equiv', n, tuple(sorted(failing))), bool(bad) and len(bad) < n)
+    res.case(('equiv', n, tuple(sorted(failing)), style), bool(bad) and len(bad) < n)
     FE = ld.core.FilterException
     src = ld.new({f'k{i}': i for i in range(n)})
 
     def keep(x):
-        return sid(x) not in bad
+        return truthy(sid(x) not in bad, style, sid(x))
 
     def raise_unless(x):
         if not keep(x):
@@ -241,7 +263,8 @@ def check_equivalence(ld, n, failing, res):
     for name, o in obs.items():
         if o != want:
             res.violation('filter-formulations-disagree', {**case, 'which': name},
-                          {'obs': obs, 'want': want}, sig={'which': name})
+                          {'obs': repr(obs)[:600], 'want': want},
+                          sig={'which': name, 'style': style if style == 'bool' else 'object'})
             return
 
 
@@ -266,9 +289,14 @@ def run_shard(spec, res):
     ld = import_lazy_dataset()
     N = spec['N']
     if spec['what'] == 'equiv':
+        from ..terms import TRUTH_STYLES
         for n in range(0, N + 2):
             for failing in subsets(n):
                 check_equivalence(ld, n, failing, res)
+        for n in range(0, N):
+            for failing in subsets(n):
+                for style in TRUTH_STYLES[1:]:
+                    check_equivalence(ld, n, failing, res, style)
         return
     site, wk = spec['site'], spec['with_key']
     for n in range(0, N + 1):
@@ -304,7 +332,8 @@ def finalize(res, tier):
 def replay(case, res):
     ld = import_lazy_dataset()
     if case.get('check') == 'three-formulations':
-        check_equivalence(ld, case['n'], case['failing'], res)
+        check_equivalence(ld, case['n'], case['failing'], res,
+                          case.get('predicate_returns', 'bool'))
         return
     ft = {'Foreign': Foreign, 'ForeignBase': ForeignBase, 'KeyError': KeyError}[
         case.get('foreign_type', 'Foreign')]
